@@ -2230,13 +2230,56 @@ package main
 //@ func isStringMatchRules
 //@   trusted
 //@   panics may
-//@ func parseSRules
-//@   trusted
-//@   modifies maps glob:wg glob:vardefs
+//@ func psNextTT
+//@   props C06 C09 C16
+//@   requires live: live(ps)
 //@   panics may
-//@   ensures kept: live(ps) ==> live(result.E0) && samebuf(result.E0, ps) && result.E0.scope == ps.scope && sameoff(result.E0.offsideCol, ps.offsideCol)
+//@   returns adv(ps).tkz.current.ttype
+
+//@ func isSLitRule
+//@   props C06 C09 C16
+//@   requires live: live(ps)
+//@   panics may
+//@   returns ps.tkz.current.ttype == New_TokenType_BAR && adv(ps).tkz.current.ttype == New_TokenType_STRING
+
+// the literal arms of a string match: as long as `| "literal"` follows; then a default arm or a variable arm is required
+//@ func parseSMRules
+//@   props C06 C09 C16
+//@   param pBlock: like parseBlock(_, $0)
+//@   modifies maps glob:wg glob:vardefs
+//@   requires live: live(ps)
+//@   requires offside-stack-non-empty: len(ps.offsideCol) >= 1
+//@   panics may
+//@   rec-group expr
+//@   decreases lex(rem(ps), 14)
+//@   ensures literal-arms-end: !(result.E0.tkz.current.ttype == New_TokenType_BAR && adv(result.E0).tkz.current.ttype == New_TokenType_STRING)
+//@   ensures at-least-one-arm: len(result.E1) >= 1
+//@   ensures live: live(result.E0) && samebuf(result.E0, ps)
+//@   ensures kept: result.E0.scope == ps.scope && sameoff(result.E0.offsideCol, ps.offsideCol)
+//@   ensures progress: result.E0.tkz.current.begin > ps.tkz.current.begin
 //@   ensures grouped: old(glob(wg)) ==> glob(wg)
-//@   ensures progress: live(ps) ==> result.E0.tkz.current.begin > ps.tkz.current.begin
+//@   inline-call ParseList2#0
+//@   loop ParseList2#0/0:
+//@     invariant kept: live(ps) && samebuf(ps, old(ps)) && ps.scope == old(ps).scope && sameoff(ps.offsideCol, old(ps).offsideCol)
+//@     invariant grouped: old(glob(wg)) ==> glob(wg)
+//@     invariant some: len(res) >= 1
+//@     invariant advanced: ps.tkz.current.begin > old(ps).tkz.current.begin
+//@     decreases rem(ps)
+
+//@ func parseSRules
+//@   props C06 C09 C16
+//@   param pBlock: like parseBlock(_, $0)
+//@   modifies maps glob:wg glob:vardefs
+//@   requires live: live(ps)
+//@   requires offside-stack-non-empty: len(ps.offsideCol) >= 1
+//@   panics may
+//@   rec-group expr
+//@   decreases lex(rem(ps), 15)
+//@   ensures a-default-or-a-variable-arm-closes-the-match: is(StringMatchRules_SCaseWD, result.E1) || is(StringMatchRules_SCaseWV, result.E1)
+//@   ensures live: live(result.E0) && samebuf(result.E0, ps)
+//@   ensures kept: result.E0.scope == ps.scope && sameoff(result.E0.offsideCol, ps.offsideCol)
+//@   ensures progress: result.E0.tkz.current.begin > ps.tkz.current.begin
+//@   ensures grouped: old(glob(wg)) ==> glob(wg)
 
 //@ func parseMatchRules
 //@   props C09 C16
